@@ -701,6 +701,100 @@ fn barrier_family(out: &mut Out) {
     }
 }
 
+
+// ------------------------------------------------------------------ template functions (bounded only: Tera code is not under contract)
+
+fn template_family(out: &mut Out) {
+    use chrono::{TimeZone, Utc};
+    use zerv::cli::utils::template::{Template, TemplateExt};
+    let render = |t: String| -> Result<String, String> {
+        let tpl: Template<String> = Template::new(t.clone());
+        match std::panic::catch_unwind(std::panic::AssertUnwindSafe(|| tpl.render_string(None))) {
+            Err(_) => Err(format!("PANIC: {}", LAST_PANIC.lock().map(|g| g.replace('\n', " ")).unwrap_or_default())),
+            Ok(Ok(s)) => Ok(s),
+            Ok(Err(e)) => Err(format!("error: {e}")),
+        }
+    };
+    let values = ["", "a", "abc", "aé", "éé", "日本語x", "feature/x-1", "0007", "a b", "Ｋ"];
+    for v in values {
+        for len in [0usize, 1, 2, 3, 7, 30] {
+            out.cases += 1;
+            match render(format!("{{{{ prefix(value=\"{v}\", length={len}) }}}}")) {
+                Ok(r) => {
+                    if r.chars().count() > len || !v.starts_with(&r) {
+                        out.cex("template_functions", format!("prefix(value={v:?}, length={len}) = {r:?}: not a prefix of at most {len} characters"));
+                    }
+                }
+                Err(e) if e.starts_with("PANIC") => out.cex("template_functions", format!("prefix(value={v:?}, length={len}) {e}")),
+                Err(_) => {}
+            }
+            out.cases += 1;
+            match render(format!("{{{{ hash(value=\"{v}\", length={len}) }}}}")) {
+                Ok(r) => {
+                    if r.chars().count() > len || !r.chars().all(|c| c.is_ascii_hexdigit()) {
+                        out.cex("template_functions", format!("hash(value={v:?}, length={len}) = {r:?}: more than {len} characters or not hex"));
+                    }
+                }
+                Err(e) if e.starts_with("PANIC") => out.cex("template_functions", format!("hash(value={v:?}, length={len}) {e}")),
+                Err(_) => {}
+            }
+            for allow in [false, true] {
+                out.cases += 1;
+                match render(format!("{{{{ hash_int(value=\"{v}\", length={len}, allow_leading_zero={allow}) }}}}")) {
+                    Ok(r) => {
+                        let bad_zero = !allow && r.len() > 1 && r.starts_with('0');
+                        if r.chars().count() > len || !r.chars().all(|c| c.is_ascii_digit()) || bad_zero {
+                            out.cex("template_functions", format!("hash_int(value={v:?}, length={len}, allow_leading_zero={allow}) = {r:?}: more than {len} digits, a non-digit, or a leading zero"));
+                        }
+                    }
+                    Err(e) if e.starts_with("PANIC") => out.cex("template_functions", format!("hash_int(value={v:?}, length={len}) {e}")),
+                    Err(_) => {}
+                }
+            }
+        }
+        out.cases += 1;
+        match render(format!("{{{{ prefix_if(value=\"{v}\", prefix=\"+\") }}}}")) {
+            Ok(r) => {
+                let want = if v.is_empty() { String::new() } else { format!("+{v}") };
+                if r != want {
+                    out.cex("template_functions", format!("prefix_if(value={v:?}, prefix=\"+\") = {r:?}, expected {want:?}"));
+                }
+            }
+            Err(e) if e.starts_with("PANIC") => out.cex("template_functions", format!("prefix_if(value={v:?}) {e}")),
+            Err(_) => {}
+        }
+        out.cases += 1;
+        match render(format!("{{{{ sanitize(value=\"{v}\", preset=\"dotted\") }}}}")) {
+            Ok(r) => {
+                let want = Sanitizer::semver_str().sanitize(v);
+                if r != want {
+                    out.cex("template_functions", format!("sanitize(value={v:?}, preset=dotted) = {r:?}, sanitiser gives {want:?}"));
+                }
+            }
+            Err(e) if e.starts_with("PANIC") => out.cex("template_functions", format!("sanitize(value={v:?}) {e}")),
+            Err(_) => {}
+        }
+    }
+    for ts in [0u64, 86399, 1710511845, 4102444799] {
+        for f in ["%Y-%m-%d", "%H:%M:%S", "%Y%m%d", "compact_date", "compact_datetime", "%j", "%Q", "%", "%-", "%:::z%!"] {
+            out.cases += 1;
+            let code = match f { "compact_date" => "%Y%m%d", "compact_datetime" => "%Y%m%d%H%M%S", x => x };
+            match render(format!("{{{{ format_timestamp(value={ts}, format=\"{f}\") }}}}")) {
+                Ok(r) => {
+                    let dt = Utc.timestamp_opt(ts as i64, 0).unwrap();
+                    let mut want = String::new();
+                    use std::fmt::Write;
+                    if write!(want, "{}", dt.format(code)).is_ok() && r != want {
+                        out.cex("template_functions", format!("format_timestamp(value={ts}, format={f:?}) = {r:?}, UTC calendar formatting = {want:?}"));
+                    }
+                }
+                Err(e) if e.starts_with("PANIC") => out.cex("template_functions", format!("format_timestamp(value={ts}, format={f:?}) {e}")),
+                Err(_) => {}
+            }
+        }
+    }
+}
+
 static LAST_PANIC: std::sync::Mutex<String> = std::sync::Mutex::new(String::new());
 
 fn main() {
@@ -741,6 +835,7 @@ fn run_family(fam: &str, out: &mut Out) {
         "semver_parts" => parts_family(&mut out, true),
         "pep440_display" => parts_family(&mut out, false),
         "resolve_barrier" => barrier_family(&mut out),
+        "template_functions" => template_family(&mut out),
         _ => {
             eprintln!("unknown family {fam}");
             std::process::exit(64);
